@@ -553,6 +553,17 @@ class CodeGenerator(NodeVisitor):
                     kwarg.lineno,
                 )
 
+        # Context.call strips these two names from the keyword arguments of
+        # every call, a template can't pass them to the callee anywhere.
+        if isinstance(node, nodes.Call):
+            for kwarg in node.kwargs:
+                if kwarg.key in ("_loop_vars", "_block_vars"):
+                    self.fail(
+                        f"keyword argument {kwarg.key!r} is reserved by the"
+                        " template engine and can't be given here",
+                        kwarg.lineno,
+                    )
+
         for arg in node.args:
             self.write(", ")
             self.visit(arg, frame)
